@@ -550,11 +550,12 @@ pub fn run(tier: Tier) -> ! {
                 let class = ((k + wi + cap_height) % 5) as u32;
                 let threads = pools[(k + wi + cap_height) % pools.len()];
                 case += 1;
-                if !run.skip_case(case) {
+                // (micro tier: a Poseidon permutation costs ~0.1 s under Miri; Poseidon trees stay at <= 2 leaves)
+                if !run.skip_case(case) && !(micro && k > 1) {
                     tree_case::<PoseidonHash>(&mut run, &mut fails, "poseidon", case, k, width, cap_height, class, threads, &bset);
                 }
                 case += 1;
-                if (k + wi) % 2 == 0 && !run.skip_case(case) {
+                if ((k + wi) % 2 == 0 || micro) && !run.skip_case(case) {
                     tree_case::<KeccakHash<25>>(&mut run, &mut fails, "keccak", case, k, width, cap_height, (class + 1) % 5, threads, &bset);
                 }
             }
@@ -564,7 +565,7 @@ pub fn run(tier: Tier) -> ! {
     // schedule monitor
     let mut sigs: HashSet<u64> = HashSet::new();
     let reps = if micro { 1 } else if quick { 3 } else { 25 };
-    let shapes: &[(usize, usize, usize)] = if micro { &[(3, 5, 0), (3, 3, 1)] } else { &[(6, 5, 0), (7, 8, 2), (8, 3, 1), (5, 9, 5), (9, 6, 3)] };
+    let shapes: &[(usize, usize, usize)] = if micro { &[(2, 5, 0), (3, 3, 1)] } else { &[(6, 5, 0), (7, 8, 2), (8, 3, 1), (5, 9, 5), (9, 6, 3)] };
     for rep in 0..reps {
         for &threads in pools {
             for &(k, width, cap_height) in shapes {
@@ -585,7 +586,7 @@ pub fn run(tier: Tier) -> ! {
         run.inconclusive("schedule monitor observed fewer than 2 distinct interleavings");
     }
     // batch trees
-    for b in 0..run.n(2, 150, 3000) {
+    for b in 0..run.n(1, 150, 3000) {
         case += 1;
         if run.skip_case(case) {
             continue;
